@@ -3,6 +3,7 @@
 package gomatrixserverlib
 
 import (
+	"bytes"
 	"context"
 	"crypto/ed25519"
 	"encoding/base64"
@@ -39,6 +40,10 @@ type c15InviteCase struct {
 	Stripped    int      `json:"stripped_given"` // stripped-state entries supplied with the request
 	StateMode   string   `json:"state_mode"`     // answer of StateQuerier.GetState: events | nil | empty | err
 	Faults      []string `json:"faults"`
+	// LocalEntry: the incoming event already lists signatures[invited user's server][the local key
+	// ID] — junk | stale (the local key over other content) | other-key. It is not a signature of
+	// the local server over this event; what comes back must still carry one.
+	LocalEntry string `json:"local_entry,omitempty"`
 }
 
 type c15RoomQuerier struct {
@@ -171,6 +176,9 @@ func c15InviteCheck(ctx *vfCtx, c c15InviteCase) {
 	}
 	for _, f := range c.Faults {
 		ctx.Class("gen/" + f)
+	}
+	if c.LocalEntry != "" {
+		ctx.Class("incoming-event-lists-a-local-signature-entry/" + c.LocalEntry)
 	}
 	if violated <= 1 {
 		ctx.NonTrivial()
@@ -311,8 +319,35 @@ func c15InviteGen(t *rapid.T) c15InviteCase {
 		signer = c15Remote
 	}
 	ev, c.Keys = c15ApplySigFault(c.Version, ev, signer, sigFault)
+	if local := c15Domain(c.Invited); local != "" && local != signer && rapid.IntRange(0, 5).Draw(t, "localEntry") == 0 {
+		c.LocalEntry = rapid.SampledFrom([]string{"junk", "stale", "other-key"}).Draw(t, "localEntryKind")
+		ev = c15WithLocalEntry(c.Version, ev, local, c.LocalEntry)
+	}
 	c.Event = vfBytes(jplain(ev))
 	return c
+}
+
+// c15WithLocalEntry puts a value that is NOT the local server's signature over the event under
+// signatures[local][c15KeyID].
+func c15WithLocalEntry(version string, ev jv, local, kind string) jv {
+	var val string
+	switch kind {
+	case "junk":
+		val = base64.RawStdEncoding.EncodeToString(bytes.Repeat([]byte{0x5a}, 64))
+	case "stale":
+		_, priv := vfKeyFor(c15KeyLabel(local))
+		other := rsign(version, ev.with("depth", jnum(8)), local, c15KeyID, priv)
+		val, _ = c02SigOfTree(other, local, c15KeyID)
+	default:
+		_, priv := vfKeyFor("c15:impostor")
+		other := rsign(version, ev, local, c15KeyID, priv)
+		val, _ = c02SigOfTree(other, local, c15KeyID)
+	}
+	sigs, ok := ev.get("signatures")
+	if !ok || sigs.K != 'o' {
+		sigs = jv{K: 'o'}
+	}
+	return ev.with("signatures", sigs.with(local, jobj(c15KeyID, jstr(val))))
 }
 
 // ---------------------------------------------------------------------------------------------
